@@ -52,8 +52,8 @@ Proof.
   pose proof (odt_pass1_numbers names (filter (flag_is 1) u) 0) as P1.
   destruct (odt_pass1 names 0 (filter (flag_is 1) u)) as [[o1 seen] k].
   destruct P1 as [A1 A2].
-  pose proof (odf_dedupe_numbers names false (filter (flag_is 0) u) seen k) as P2.
-  destruct (odf_dedupe names seen false k (filter (flag_is 0) u)) as [[o2 sn] k2].
+  pose proof (odf_dedupe_numbers names false u seen k) as P2.
+  destruct (odf_dedupe names seen false k u) as [[o2 sn] k2].
   destruct P2 as [B1 B2].
   rewrite map_app, app_length, zseq_app, A1, B1. f_equal. f_equal. lia.
 Qed.
@@ -73,11 +73,76 @@ Proof.
   assert (F1 : filter (flag_is 1) u = []).
   { induction u as [|pl r IH]; [reflexivity|]. simpl in *. apply andb_true_iff in H as [H1 H2].
     unfold flag_is in *. apply Z.eqb_eq in H1. rewrite H1. simpl. apply IH. exact H2. }
-  assert (F0 : filter (flag_is 0) u = u).
-  { induction u as [|pl r IH]; [reflexivity|]. simpl in *. apply andb_true_iff in H as [H1 H2].
-    rewrite H1. f_equal. apply IH; [exact H2|].
-    clear - F1 H1. simpl in F1. unfold flag_is in *. apply Z.eqb_eq in H1. rewrite H1 in F1. simpl in F1. exact F1. }
-  rewrite F1, F0. cbn [odt_pass1]. destruct (odf_dedupe names [] false 0 u) as [[o sn] k]. reflexivity.
+  rewrite F1. cbn [odt_pass1]. destruct (odf_dedupe names [] false 0 u) as [[o sn] k]. reflexivity.
+Qed.
+
+(* ---- never more records than picture frames: a captioned picture is not returned a second time *)
+Lemma filter_length_mono {A} (f g : A -> bool) l :
+  (forall x, f x = true -> g x = true) -> (List.length (filter f l) <= List.length (filter g l))%nat.
+Proof.
+  intro H. induction l as [|x l IH]; simpl; [lia|].
+  destruct (f x) eqn:E; [rewrite (H x E); simpl; lia|]. destruct (g x); simpl; lia.
+Qed.
+
+Definition unseen (seen : list str) (pl : placement) : bool := negb (mem_str (fst pl) seen).
+
+Lemma odf_dedupe_length names cm l : forall seen k,
+  (List.length (fst (fst (odf_dedupe names seen cm k l))) <= List.length (filter (unseen seen) l))%nat.
+Proof.
+  induction l as [|pl r IH]; intros seen k; cbn [odf_dedupe filter]; [simpl; lia|].
+  unfold unseen at 1. destruct (mem_str (fst pl) seen) eqn:Em; cbn [negb]; [apply IH|].
+  assert (Mono : (List.length (filter (unseen (fst pl :: seen)) r) <= List.length (filter (unseen seen) r))%nat).
+  { apply filter_length_mono. intros x Hx. unfold unseen in *. simpl in Hx.
+    destruct (str_eqb (fst x) (fst pl)); [discriminate | exact Hx]. }
+  destruct (fetch_odf names pl) as [m|].
+  - specialize (IH (fst pl :: seen) (k + 1)).
+    destruct (odf_dedupe names (fst pl :: seen) cm (k + 1) r) as [[out sn] k']. simpl in *. lia.
+  - destruct cm.
+    + specialize (IH (fst pl :: seen) (k + 1)).
+      destruct (odf_dedupe names (fst pl :: seen) true (k + 1) r) as [[out sn] k']. simpl in *. lia.
+    + specialize (IH seen k). simpl. lia.
+Qed.
+
+Definition local_href (pl : placement) : bool := negb (is_http (fst pl)).
+
+Lemma odt_pass1_length_seen names l : forall k,
+  (List.length (fst (fst (odt_pass1 names k l))) <= List.length (filter local_href l))%nat
+  /\ snd (fst (odt_pass1 names k l)) = map fst (filter local_href l).
+Proof.
+  induction l as [|pl r IH]; intro k; cbn [odt_pass1 filter]; [split; [simpl; lia | reflexivity]|].
+  change (local_href pl) with (negb (is_http (fst pl))). destruct (is_http (fst pl)); cbn [negb]; [apply IH|].
+  destruct (member_of names (odf_member (fst pl))) as [m|].
+  - specialize (IH (k + 1)). destruct (odt_pass1 names (k + 1) r) as [[out sn] k']. simpl in *.
+    destruct IH as [H1 H2]. split; [lia | rewrite H2; reflexivity].
+  - specialize (IH k). destruct (odt_pass1 names k r) as [[out sn] k']. simpl in *.
+    destruct IH as [H1 H2]. split; [lia | rewrite H2; reflexivity].
+Qed.
+
+Lemma disjoint_filters_length {A} (f g : A -> bool) l :
+  (forall x, In x l -> f x = true -> g x = false) ->
+  (List.length (filter f l) + List.length (filter g l) <= List.length l)%nat.
+Proof.
+  induction l as [|x l IH]; intro H; simpl; [lia|].
+  assert (IH' := IH (fun y Hy => H y (or_intror Hy))).
+  destruct (f x) eqn:E; [rewrite (H x (or_introl eq_refl) E); simpl; lia|]. destruct (g x); simpl; lia.
+Qed.
+
+Lemma filter_filter {A} (f g : A -> bool) l : filter f (filter g l) = filter (fun x => g x && f x) l.
+Proof. induction l as [|x l IH]; simpl; [reflexivity|]. destruct (g x); simpl; [destruct (f x); rewrite IH; reflexivity | exact IH]. Qed.
+
+Lemma odt_images_length names u : (List.length (odt_images names u) <= List.length u)%nat.
+Proof.
+  unfold odt_images.
+  pose proof (odt_pass1_length_seen names (filter (flag_is 1) u) 0) as [L1 S1].
+  destruct (odt_pass1 names 0 (filter (flag_is 1) u)) as [[o1 seen] k]. simpl in L1, S1.
+  pose proof (odf_dedupe_length names false u seen k) as L2.
+  destruct (odf_dedupe names seen false k u) as [[o2 sn] k2]. simpl in L2.
+  rewrite app_length. rewrite filter_filter in L1, S1.
+  set (P1 := fun x : placement => flag_is 1 x && local_href x) in *.
+  assert (D : (List.length (filter P1 u) + List.length (filter (unseen seen) u) <= List.length u)%nat).
+  { apply disjoint_filters_length. intros x Hx Hp. unfold unseen. apply negb_false_iff. apply mem_str_In.
+    rewrite S1. apply in_map. apply filter_In. auto. }
+  lia.
 Qed.
 
 (* ---- content type *)
